@@ -1,5 +1,5 @@
 CFG = {
-    "lean_targets": ["Norad.Props.C08"],
+    "lean_targets": ["Norad.Props.C08", "Norad.Props.C08C13"],
     "audit": "Norad/Audit/C08.lean",
     "rule": ("Font::save through the public API in a sandbox directory: fonts invalid by each of the refusal kinds (format version 1/2, public.objectLibs in the font lib, "
              "a glyph in two kern1 groups, an impossible openTypeHeadCreated, a guideline angle of 400, store entries that are non-PNG / deleted / replaced by a directory / "
